@@ -84,7 +84,7 @@ impl Hops {
     }
 }
 
-fn normalise(v: Value) -> Value {
+pub fn normalise(v: Value) -> Value {
     match v {
         Value::String(s) if s.starts_with('u') && s.len() > 40 => {
             use base64::Engine;
